@@ -636,6 +636,32 @@ func (sf *stateFlow) refine(e Edge, out sfFact) sfFact {
 				return o
 			}
 		}
+		// p.State == element of a constant table (a hand-written membership loop, expanded into the operation)
+		if a.Op == token.EQL {
+			for _, pair := range [][2]ssa.Value{{a.X, a.Y}, {a.Y, a.X}} {
+				p, ok := sf.stateLoad(pair[0])
+				if !ok {
+					continue
+				}
+				ld, ok := pair[1].(*ssa.UnOp)
+				if !ok || ld.Op != token.MUL {
+					continue
+				}
+				ia, ok := ld.X.(*ssa.IndexAddr)
+				if !ok {
+					continue
+				}
+				if set := sf.containerSet(ia.X); set != ssTop {
+					o := out.clone()
+					cur, has := o[p]
+					if !has {
+						cur = ssTop
+					}
+					sf.set(o, p, cur&set)
+					return o
+				}
+			}
+		}
 		// p == nil
 		if isNilConst(a.Y) && sf.isEnvPtr(a.X.Type()) && a.Op == token.EQL {
 			o := out.clone()
